@@ -69,6 +69,11 @@ def pyRepr (isP : Char → Bool) (s : List Char) : List Char :=
 /-- the naive embedding `"'%s'" % s` / `f"'{s}'"` (what F8 is about) -/
 def naiveQuote (s : List Char) : List Char := '\'' :: (s ++ ['\''])
 
+/-- characters for which the naive embedding is harmless: no `'`, no backslash, no line break, no NUL -/
+def plainChar (c : Char) : Bool := !(c = '\'' || c = '\\' || c = '\n' || c = '\r' || c.toNat = 0)
+
+def plainStr (s : List Char) : Bool := s.all plainChar
+
 /-- a scalar value from a hex escape; `none` when it is not one (surrogate / > 0x10ffff) -/
 def charOfNat? (n : Nat) : Option Char :=
   if n.isValidChar then some (Char.ofNat n) else none
